@@ -26,6 +26,8 @@ type UnifiedMemoryModelRegistry struct {
 	globalUnified     *xsync.Map[string, *domain.UnifiedModel]         // UnifiedID -> UnifiedModel (merged across endpoints)
 	endpoints         *xsync.Map[string, *domain.Endpoint]             // URL -> Endpoint mapping
 	modelEndpointSets *xsync.Map[string, *xsync.Map[string, struct{}]] // ModelID -> Set of endpoint URLs (cached for fast lookup)
+	listingGen        map[string]uint64                                // URL -> generation of the endpoint's most recent listing / removal
+	registerMutex     sync.Mutex                                       // orders registrations and the generations they are given
 	unificationMutex  sync.Mutex
 }
 
@@ -89,6 +91,7 @@ func NewUnifiedMemoryModelRegistry(logger logger.StyledLogger, unificationConfig
 		globalUnified:       xsync.NewMap[string, *domain.UnifiedModel](),
 		endpoints:           xsync.NewMap[string, *domain.Endpoint](),
 		modelEndpointSets:   xsync.NewMap[string, *xsync.Map[string, struct{}]](),
+		listingGen:          make(map[string]uint64),
 	}
 }
 
@@ -110,10 +113,17 @@ func (r *UnifiedMemoryModelRegistry) RegisterModelsWithEndpoint(ctx context.Cont
 
 // RegisterModels overrides the base method to add unification
 func (r *UnifiedMemoryModelRegistry) RegisterModels(ctx context.Context, endpointURL string, models []*domain.ModelInfo) error {
-	// First, register models normally
+	// First, register models normally. Unification runs in the background, so every accepted
+	// listing is given a generation here, in the order the base registry accepted them; only
+	// the endpoint's most recent listing is allowed to shape the unified catalogue
+	r.registerMutex.Lock()
 	if err := r.MemoryModelRegistry.RegisterModels(ctx, endpointURL, models); err != nil {
+		r.registerMutex.Unlock()
 		return err
 	}
+	r.listingGen[endpointURL]++
+	generation := r.listingGen[endpointURL]
+	r.registerMutex.Unlock()
 
 	// Invalidate any cached endpoint sets for these models since they're being updated
 	for _, model := range models {
@@ -123,16 +133,22 @@ func (r *UnifiedMemoryModelRegistry) RegisterModels(ctx context.Context, endpoin
 	}
 
 	// Then unify them
-	go r.unifyModelsAsync(ctx, endpointURL, models)
+	go r.unifyModelsAsync(ctx, endpointURL, models, generation)
 
 	return nil
 }
 
 // unifyModelsAsync performs model unification in the background
-func (r *UnifiedMemoryModelRegistry) unifyModelsAsync(ctx context.Context, endpointURL string, models []*domain.ModelInfo) {
+func (r *UnifiedMemoryModelRegistry) unifyModelsAsync(ctx context.Context, endpointURL string, models []*domain.ModelInfo, generation uint64) {
 	verifhook.Point("registry.unify", endpointURL)
 	r.unificationMutex.Lock()
 	defer r.unificationMutex.Unlock()
+
+	// Background merges are not ordered: a listing that has been superseded by a newer one
+	// (or by the endpoint's removal) must not be merged after it
+	if !r.isCurrentListing(endpointURL, generation) {
+		return
+	}
 
 	// Get or create endpoint object
 	endpoint, exists := r.endpoints.Load(endpointURL)
@@ -156,6 +172,15 @@ func (r *UnifiedMemoryModelRegistry) unifyModelsAsync(ctx context.Context, endpo
 	for _, unified := range unifiedModels {
 		modelGroups[unified.ID] = append(modelGroups[unified.ID], unified)
 	}
+
+	// The listing replaces the endpoint's previous one: it stops being a source of every
+	// unified model it no longer lists
+	r.globalUnified.Range(func(id string, model *domain.UnifiedModel) bool {
+		if _, stillListed := modelGroups[id]; !stillListed {
+			r.dropEndpointFromUnifiedModel(id, model, endpointURL)
+		}
+		return true
+	})
 
 	// Merge models across endpoints
 	for id, group := range modelGroups {
@@ -314,56 +339,86 @@ func (r *UnifiedMemoryModelRegistry) RemoveEndpoint(ctx context.Context, endpoin
 		return err
 	}
 
+	// Listings of this endpoint that are still waiting to be unified are void now
+	r.registerMutex.Lock()
+	r.listingGen[endpointURL]++
+	r.registerMutex.Unlock()
+
 	// Clean up unified models
 	r.unificationMutex.Lock()
 	defer r.unificationMutex.Unlock()
 
 	// Remove endpoint from all unified models
 	r.globalUnified.Range(func(id string, model *domain.UnifiedModel) bool {
-		// we're capturing model metadata BEFORE mutation to avoid accessing empty slices
-		// when the last endpoint is removed (model.RemoveEndpoint empties SourceEndpoints)
-		sourceEndpoints := make([]domain.SourceEndpoint, len(model.SourceEndpoints))
-		copy(sourceEndpoints, model.SourceEndpoints)
-		aliases := make([]domain.AliasEntry, len(model.Aliases))
-		copy(aliases, model.Aliases)
-
-		if model.RemoveEndpoint(endpointURL) {
-			// If no endpoints left, remove the unified model and its cached sets
-			if !model.IsAvailable() {
-				r.globalUnified.Delete(id)
-				// delete cache entries for all model names using captured snapshots
-				r.modelEndpointSets.Delete(id)
-				for _, sourceEndpoint := range sourceEndpoints {
-					r.modelEndpointSets.Delete(sourceEndpoint.NativeName)
-				}
-				for _, alias := range aliases {
-					r.modelEndpointSets.Delete(alias.Name)
-				}
-			} else {
-				// Update the model
-				model.DiskSize = model.GetTotalDiskSize()
-				model.LastSeen = time.Now()
-
-				// update cached endpoint set to reflect the removed endpoint
-				var endpointURLs []string
-				for _, sourceEndpoint := range model.SourceEndpoints {
-					endpointURLs = append(endpointURLs, sourceEndpoint.EndpointURL)
-				}
-
-				// update cache for all model names
-				r.updateEndpointSet(id, endpointURLs)
-				for _, sourceEndpoint := range model.SourceEndpoints {
-					r.updateEndpointSet(sourceEndpoint.NativeName, endpointURLs)
-				}
-				for _, alias := range model.Aliases {
-					r.updateEndpointSet(alias.Name, endpointURLs)
-				}
-			}
-		}
+		r.dropEndpointFromUnifiedModel(id, model, endpointURL)
 		return true
 	})
 
+	// The unifier keeps its own catalogue, which alias lookups fall back to
+	if remover, ok := r.unifier.(interface {
+		RemoveEndpoint(ctx context.Context, endpointURL string) error
+	}); ok {
+		_ = remover.RemoveEndpoint(ctx, endpointURL)
+	} else {
+		_, _ = r.unifier.UnifyModels(ctx, nil, &domain.Endpoint{URLString: endpointURL, Name: endpointURL})
+	}
+
 	return nil
+}
+
+// isCurrentListing reports whether generation is still the endpoint's most recent listing
+func (r *UnifiedMemoryModelRegistry) isCurrentListing(endpointURL string, generation uint64) bool {
+	r.registerMutex.Lock()
+	defer r.registerMutex.Unlock()
+	return r.listingGen[endpointURL] == generation
+}
+
+// dropEndpointFromUnifiedModel removes endpointURL from the sources of one unified model and
+// keeps the cached endpoint sets in step. Callers hold unificationMutex.
+func (r *UnifiedMemoryModelRegistry) dropEndpointFromUnifiedModel(id string, model *domain.UnifiedModel, endpointURL string) {
+	// we're capturing model metadata BEFORE mutation to avoid accessing empty slices
+	// when the last endpoint is removed (model.RemoveEndpoint empties SourceEndpoints)
+	sourceEndpoints := make([]domain.SourceEndpoint, len(model.SourceEndpoints))
+	copy(sourceEndpoints, model.SourceEndpoints)
+	aliases := make([]domain.AliasEntry, len(model.Aliases))
+	copy(aliases, model.Aliases)
+
+	if !model.RemoveEndpoint(endpointURL) {
+		return
+	}
+
+	// If no endpoints left, remove the unified model and its cached sets
+	if !model.IsAvailable() {
+		r.globalUnified.Delete(id)
+		// delete cache entries for all model names using captured snapshots
+		r.modelEndpointSets.Delete(id)
+		for _, sourceEndpoint := range sourceEndpoints {
+			r.modelEndpointSets.Delete(sourceEndpoint.NativeName)
+		}
+		for _, alias := range aliases {
+			r.modelEndpointSets.Delete(alias.Name)
+		}
+		return
+	}
+
+	// Update the model
+	model.DiskSize = model.GetTotalDiskSize()
+	model.LastSeen = time.Now()
+
+	// update cached endpoint set to reflect the removed endpoint
+	var endpointURLs []string
+	for _, sourceEndpoint := range model.SourceEndpoints {
+		endpointURLs = append(endpointURLs, sourceEndpoint.EndpointURL)
+	}
+
+	// update cache for all model names, including the name the removed endpoint knew it by
+	r.updateEndpointSet(id, endpointURLs)
+	for _, sourceEndpoint := range sourceEndpoints {
+		r.updateEndpointSet(sourceEndpoint.NativeName, endpointURLs)
+	}
+	for _, alias := range model.Aliases {
+		r.updateEndpointSet(alias.Name, endpointURLs)
+	}
 }
 
 // GetHealthyEndpointsForModel returns healthy endpoints that have a specific model
